@@ -2,14 +2,14 @@
    model is a valid chain; lookups agree; no ill-formed store operation. *)
 From stdpp Require Import list.
 From Coq Require Import ZArith Lia ZifyBool.
-From Verif Require Import S2.Model C01.Spec S2.Basics S2.Invariant.
+From Verif Require Import S2.Model C01.Spec S2.Basics S2.Invariant S2.Faults.
 Open Scope Z_scope.
 
 (* ---------- hypotheses on a history ---------- *)
-Definition msg_headers (o : op) : list header := match o with OHeaders _ _ hs => hs | _ => [] end.
+Definition msg_headers (o : op) : list header := match o with OHeaders _ _ hs | OHeadersF _ _ hs _ => hs | _ => [] end.
 Definition hist_headers (ops : list op) : list header := flat_map msg_headers ops.
 Definition hist_nows (ops : list op) : list Z :=
-  flat_map (fun o => match o with OHeaders _ now _ => [now] | _ => [] end) ops.
+  flat_map (fun o => match o with OHeaders _ now _ | OHeadersF _ now _ _ => [now] | _ => [] end) ops.
 
 (* the headers the client ever sees: the genesis block and whatever peers send *)
 Definition U_of (P : params) (ops : list op) (h : header) : Prop := h = genesis P \/ h ∈ hist_headers ops.
@@ -29,10 +29,26 @@ Definition op_ok (P : params) (o : op) : Prop :=
   match o with
   | OHeaders _ _ hs => zlen hs < memCap P
   | ORollback _ => False
+  | OHeadersF _ _ _ _ => False
   | _ => True
   end.
 Definition wf_hist (P : params) (ops : list op) : Prop :=
   Forall (op_ok P) ops /\ 1 + ops_size ops <= 1000000.
+
+(* ... and histories in which writes to the block header store may fail
+   inside handleHeadersMsg (OHeadersF p now hs k: the k-th WriteHeaders call
+   made for the message fails, any k) *)
+Definition op_ok_f (P : params) (o : op) : Prop :=
+  match o with
+  | OHeadersF _ _ hs _ => zlen hs < memCap P
+  | _ => op_ok P o
+  end.
+Definition wf_hist_f (P : params) (ops : list op) : Prop :=
+  Forall (op_ok_f P) ops /\ 1 + ops_size ops <= 1000000.
+Lemma wf_hist_wf_hist_f P ops : wf_hist P ops -> wf_hist_f P ops.
+Proof.
+  intros [H1 H2]. split; [|done]. eapply Forall_impl; [exact H1|]. intros o Ho. destruct o; done.
+Qed.
 
 Lemma no_collision_universe P ops : no_collision P ops -> universe P (U_of P ops).
 Proof. intros [H1 H2]. split; [by left|exact H1|exact H2]. Qed.
@@ -45,7 +61,17 @@ Proof. unfold hist_nows. by rewrite flat_map_app. Qed.
 Lemma op_ok_wf P ops o : o ∈ ops -> op_ok P o -> wf_op P (U_of P ops) (T_of ops) o.
 Proof.
   intros Hin Hok. apply elem_of_list_split in Hin as (l1 & l2 & ->).
-  destruct o as [p now hs| | | | | |]; cbn in *; try done.
+  destruct o as [p now hs| | | | | | |]; cbn in *; try done.
+  split; [|split; [|done]].
+  - unfold T_of. rewrite hist_nows_app. apply elem_of_app. right. cbn. left.
+  - apply Forall_forall. intros h Hh. right. rewrite hist_headers_app. apply elem_of_app. right.
+    cbn. apply elem_of_app. by left.
+Qed.
+
+Lemma op_ok_wf_f P ops o : o ∈ ops -> op_ok_f P o -> wf_op_f P (U_of P ops) (T_of ops) o.
+Proof.
+  intros Hin Hok. destruct o as [| | | | | | |p now hs k]; try (by apply op_ok_wf).
+  apply elem_of_list_split in Hin as (l1 & l2 & ->). cbn in *.
   split; [|split; [|done]].
   - unfold T_of. rewrite hist_nows_app. apply elem_of_app. right. cbn. left.
   - apply Forall_forall. intros h Hh. right. rewrite hist_headers_app. apply elem_of_app. right.
@@ -63,6 +89,15 @@ Proof.
   intros HP HU [Hok Hsz]. pose proof (no_collision_universe P ops HU) as HUu.
   apply run_Inv; [done|done|by apply init_Inv|by apply wf_hist_ops|].
   change (chain (init_state P gfh)) with [genesis P]. unfold LIMIT. rewrite zlen_cons, zlen_nil. lia.
+Qed.
+
+Lemma reach_Inv_f P gfh ops : wf_params P -> no_collision P ops -> wf_hist_f P ops ->
+  Inv P (U_of P ops) (T_of ops) (run P (init_state P gfh) ops).
+Proof.
+  intros HP HU [Hok Hsz]. pose proof (no_collision_universe P ops HU) as HUu.
+  apply run_Inv_f; [done|done|by apply init_Inv| |].
+  - apply Forall_forall. intros o Ho. apply op_ok_wf_f; [done|]. rewrite Forall_forall in Hok. by apply Hok.
+  - change (chain (init_state P gfh)) with [genesis P]. unfold LIMIT. rewrite zlen_cons, zlen_nil. lia.
 Qed.
 
 (* ---------- from the invariant to the spec ---------- *)
@@ -137,8 +172,8 @@ Proof.
 Qed.
 Lemma ops_size_nonneg ops : 0 <= ops_size ops.
 Proof.
-  induction ops as [|o ops IH]; cbn; [lia|]. fold (ops_size ops). destruct o; cbn; try lia.
-  pose proof (zlen_nonneg hs). lia.
+  induction ops as [|o ops IH]; cbn; [lia|]. fold (ops_size ops). destruct o; cbn; try lia;
+  pose proof (zlen_nonneg hs); lia.
 Qed.
 Lemma ops_size_app a b : ops_size (a ++ b) = ops_size a + ops_size b.
 Proof. unfold ops_size. induction a as [|o a IH]; cbn [app foldr]; lia. Qed.
@@ -192,6 +227,58 @@ Lemma never_traps P gfh pre post :
   trap (run P (init_state P gfh) pre) = false.
 Proof. intros HP HU HW. by apply (chain_valid_every_instant P gfh pre post). Qed.
 
+(* ---------- the same for histories with store write faults ---------- *)
+Lemma wf_hist_f_prefix P pre post : wf_hist_f P (pre ++ post) -> wf_hist_f P pre.
+Proof.
+  intros [H1 H2]. apply Forall_app in H1 as [H1 _]. split; [done|].
+  rewrite ops_size_app in H2. pose proof (ops_size_nonneg post). lia.
+Qed.
+
+Lemma chain_valid_every_instant_f P gfh pre post :
+  wf_params P -> no_collision P (pre ++ post) -> wf_hist_f P (pre ++ post) ->
+  let s := run P (init_state P gfh) pre in
+  trap s = false /\
+  exists times, length times = length (chain s) /\
+    Forall (fun t => t ∈ hist_nows pre) (tail times) /\
+    valid_chain P (zip (chain s) times) = true.
+Proof.
+  intros HP HU HW s.
+  pose proof (reach_Inv_f P gfh pre HP (no_collision_prefix _ _ _ HU) (wf_hist_f_prefix _ _ _ HW)) as HI. fold s in HI.
+  split; [apply (i_trap _ _ _ _ HI)|]. by apply (Inv_valid_chain P (U_of P pre) (T_of pre)).
+Qed.
+
+Lemma lookups_agree_f P gfh ops :
+  wf_params P -> no_collision P ops -> wf_hist_f P ops ->
+  let s := run P (init_state P gfh) ops in
+  (forall x h i, fetch_header (chain s) x = Some (h, i) <-> at_h (chain s) i = Some h /\ hid h = x) /\
+  (exists t, chain_tip s = Some t /\ at_h (chain s) (tip_height s) = Some t /\
+             fetch_header (chain s) (hid t) = Some (t, tip_height s)) /\
+  NoDup (map hid (chain s)).
+Proof.
+  intros HP HU HW s. pose proof (reach_Inv_f P gfh ops HP HU HW) as HI. fold s in HI.
+  split; [intros x h i; by apply (Inv_lookups P (U_of P ops) (T_of ops))|].
+  split; [by apply (Inv_tip P (U_of P ops) (T_of ops))|].
+  destruct (i_chain _ _ _ _ HI) as [tl Htl]. apply (co_nodup _ _ _ _ _ Htl).
+Qed.
+
+(* what else the handler relies on between messages: the in-memory window is
+   the tail of the stored chain, the next checkpoint is the first one above
+   the stored tip, the in-memory filter tip is the filter store's *)
+Lemma mirror_f P gfh ops :
+  wf_params P -> no_collision P ops -> wf_hist_f P ops ->
+  let s := run P (init_state P gfh) ops in
+  WM (hl s) (chain s) /\ nextCp s = find_next_cp P (tip_height s) /\
+  0 < zlen (fchain s) <= zlen (chain s) /\ ftipVar s = zlen (fchain s) - 1.
+Proof.
+  intros HP HU HW s. pose proof (reach_Inv_f P gfh ops HP HU HW) as HI. fold s in HI.
+  destruct HI. repeat split; done.
+Qed.
+
+Lemma write_faults_conservative P ops now p hs s :
+  (wf_hist P ops -> wf_hist_f P ops) /\
+  step P s (OHeadersF p now hs 0) = step P s (OHeaders p now hs).
+Proof. split; [apply wf_hist_wf_hist_f|apply handle_headers_f_0]. Qed.
+
 (* ---------- a concrete history ---------- *)
 Definition ex_bits : Z := 545259519.    (* 0x207fffff *)
 Definition ex_mk (id prev time : Z) : header :=
@@ -223,3 +310,20 @@ Definition ex_ops : list op :=
     OInv 1 ex_now (Some 204);
     OHeaders 1 ex_now [ex_f4];
     ODonePeer 1 ].
+
+(* store write faults: the first batch is lost (its write fails), sent again;
+   the write of the first header of a heavier branch fails after the rollback;
+   the branch is sent again (now an extension); the batch that reaches the
+   checkpoint at height 4 is lost; a different valid header at height 4 is
+   then still refused (the next checkpoint was not advanced), and the
+   checkpointed one accepted *)
+Definition ex_g4 := ex_mk 214 203 3500.
+Definition exf_ops : list op :=
+  [ ONewPeer 1 0 10 true;
+    OHeadersF 1 ex_now [ex_h1; ex_h2] 1;
+    OHeaders 1 ex_now [ex_h1; ex_h2];
+    OHeadersF 1 ex_now [ex_f2; ex_f3] 1;
+    OHeadersF 1 ex_now [ex_f2; ex_f3] 2;
+    OHeadersF 1 ex_now [ex_f4] 1;
+    OHeaders 1 ex_now [ex_g4];
+    OHeaders 1 ex_now [ex_h1; ex_f2; ex_f3; ex_f4] ].
